@@ -483,3 +483,110 @@ func (c *Ctx) RouterDoc(o RouterOpts) *Doc {
 }
 
 func (c *Ctx) String() string { return fmt.Sprintf("ctx(%d)", c.n) }
+
+// ---------------------------------------------------------------------------
+// map-fat family (C12): >=4 entries in every map-typed construct
+
+func (c *Ctx) MapFat() *Doc {
+	t := c.T
+	o := DefaultCompOpts()
+	o.NumSchemas = 6
+	o.MaxTemplates = 6
+	d := c.Composition(o)
+	cs := c.comps()
+	// component schema maps with >=4 entries and objects with >=4 properties
+	for i := 0; i < 4; i++ {
+		s := &Schema{Type: "object", Properties: map[string]*Schema{}}
+		for j := 0; j < 4; j++ {
+			s.Properties[c.SafeName("p", "fatprop")] = c.Schema(1, "property")
+		}
+		c.AddSchema(c.CompName("Fat", "fat"), s)
+	}
+	// discriminator with >=4 mapping entries
+	{
+		prop := c.SafeName("kind", "fatdisc")
+		one := &Schema{Discriminator: &Discriminator{PropertyName: prop, Mapping: map[string]string{}}}
+		for i := 0; i < 4; i++ {
+			name := c.objectComponent(1, "fatoneof", true)
+			obj := cs.Schemas[name]
+			obj.Properties[prop] = &Schema{Type: "string"}
+			obj.Required = append(obj.Required, prop)
+			sort.Strings(obj.Required)
+			one.OneOf = append(one.OneOf, &Schema{Ref: RefSchemas + name})
+			one.Discriminator.Mapping[c.PlainName("m", "fatmap")] = RefSchemas + name
+			if rapid.Bool().Draw(t, "second_mapping") {
+				one.Discriminator.Mapping[c.PlainName("n", "fatmap2")] = name
+			}
+		}
+		c.AddSchema(c.CompName("FatChoice", "fatchoice"), one)
+		c.Tag("fat:discriminator-mapping")
+	}
+	// server variables whose defaults contain other variables' placeholders
+	{
+		vars := map[string]*ServerVariable{}
+		names := []string{c.PlainName("sv", "sv"), c.PlainName("sv", "sv"), c.PlainName("sv", "sv"), c.PlainName("sv", "sv")}
+		vars[names[0]] = &ServerVariable{Default: "demo"}
+		vars[names[1]] = &ServerVariable{Default: "{" + names[2] + "}x"}
+		vars[names[2]] = &ServerVariable{Default: "api{" + names[3] + "}"}
+		vars[names[3]] = &ServerVariable{Default: "v1"}
+		d.Servers = []*Server{{URL: "https://{" + names[0] + "}.example.com/{" + names[1] + "}/{" + names[2] + "}", Variables: vars}}
+		c.Tag("fat:server-variables")
+	}
+	// security: >=4 schemes, one requirement naming several schemes (AND), oauth scopes
+	{
+		if cs.SecuritySchemes == nil {
+			cs.SecuritySchemes = map[string]*SecurityScheme{}
+		}
+		names := c.SecuritySchemes(4, false)
+		oname := c.PlainName("sec", "oauth")
+		cs.SecuritySchemes[oname] = &SecurityScheme{Type: "oauth2", Flows: &OAuthFlows{Implicit: &OAuthFlow{AuthorizationURL: "https://a.example/auth",
+			Scopes: map[string]string{"read": "r", "write": "w", "admin": "a", "audit": "u"}}}}
+		and := map[string][]string{}
+		for _, n := range names[:rapid.IntRange(2, 4).Draw(t, "nand")] {
+			and[n] = []string{}
+		}
+		sec := []map[string][]string{and, {oname: {"read", "write"}}}
+		// attach to a few operations
+		for _, p := range SortedKeys(d.Paths) {
+			for _, mo := range d.Paths[p].Ops() {
+				if rapid.Bool().Draw(t, "fat_sec") {
+					mo.Op.Security = &sec
+				}
+			}
+		}
+		d.Security = &sec
+		c.Tag("fat:and-requirement")
+	}
+	// component parameters / headers / responses / request bodies with >=4 entries
+	for i := 0; i < 4; i++ {
+		if cs.Parameters == nil {
+			cs.Parameters = map[string]*Parameter{}
+		}
+		cs.Parameters[c.CompName("FatPar", "fatpar")] = &Parameter{Name: c.SafeName("q", "fatq"), In: "query", Schema: &Schema{Type: "string"}}
+		if cs.Headers == nil {
+			cs.Headers = map[string]*Header{}
+		}
+		cs.Headers[c.CompName("FatHdr", "fathdr")] = &Header{Schema: &Schema{Type: "integer"}}
+		if cs.RequestBodies == nil {
+			cs.RequestBodies = map[string]*RequestBody{}
+		}
+		cs.RequestBodies[c.CompName("FatReq", "fatreq")] = &RequestBody{Content: JSONContent(objAB())}
+	}
+	// an operation with >=4 responses, each with >=4 headers, and >=4 parameters
+	{
+		op := &Operation{Responses: map[string]*Response{}}
+		for _, st := range []string{"200", "201", "400", "404", "500", "default"} {
+			r := &Response{Description: Str(""), Headers: map[string]*Header{}}
+			for j := 0; j < 4; j++ {
+				r.Headers["X-F"+c.SafeName("h", "fath")] = &Header{Schema: &Schema{Type: "string"}}
+			}
+			op.Responses[st] = r
+		}
+		for j := 0; j < 4; j++ {
+			op.Parameters = append(op.Parameters, &Parameter{Name: c.SafeName("q", "fatq2"), In: "query", Schema: &Schema{Type: "integer"}})
+			op.Parameters = append(op.Parameters, &Parameter{Name: "X-F" + c.SafeName("p", "fath2"), In: "header", Schema: &Schema{Type: "string"}})
+		}
+		d.Paths["/"+c.PlainName("fat", "fatpath")] = &PathItem{Post: op}
+	}
+	return d
+}
